@@ -99,4 +99,26 @@ theorem wait_overdue (w : Waiter) (e : Env) (hinv : w.lastNow ≤ e.now) (next :
       · have : ¬ next ≤ e.now := by omega
         by_cases h3 : e.timerWins = true <;> simp [h1, h2, h3, this]
 
+/-- every action of the loop belongs to a pass of the history -/
+theorem runLoop_iter_mem (v : Variant) (d : Bool) (w : Waiter) (h : List Iter) :
+    ∀ ev ∈ (runLoop v d w h).1, ev.iter ∈ h := by
+  induction h generalizing w with
+  | nil => simp [runLoop]
+  | cons jt rest ih =>
+    intro ev hev
+    unfold runLoop at hev
+    by_cases hf : jt.finished = true
+    · simp [hf] at hev
+    · by_cases ha : jt.ammoOk = true
+      · simp only [hf, ha] at hev
+        by_cases hk : (waitV v w jt.env).ok = true
+        · simp only [hk] at hev
+          simp at hev
+          rcases hev with rfl | hev
+          · split <;> simp [Ev.iter]
+          · exact List.mem_cons_of_mem _ (ih _ ev hev)
+        · simp [hk] at hev
+          exact List.mem_cons_of_mem _ (ih _ ev hev)
+      · simp [hf, ha] at hev
+
 end Pandora.Proofs.C04
